@@ -389,9 +389,10 @@ func searchSnap(c *vkit.Collector, rng *vkit.Rng, budget int, o *oracle) {
 					o.add(pending{req: map[string]interface{}{"t": "ptedge", "p": hv(p), "edges": hedges([][2]s2.Point{{q, q}})},
 						bound: radius, kind: "IntLatLngSnapper.SnapPoint", desc: fmt.Sprintf("IntLatLngSnapper(%d) moves a point by more than SnapRadius() = %g", e, radius), replay: rep, approx: d, exceedsFloat: d > radius})
 				}
-				// on the grid of 10^-e degrees: the representable point nearest a grid site is within
-				// ~1e-16 rad of it, i.e. 10^e*2e-14 grid units; longitudes are compared along the parallel
-				thr := 1e-9 + math.Pow(10, float64(e))*2e-14
+				// on the grid of 10^-e degrees: k*fl(10^-e) -> radians -> unit vector costs a few ulps of the angle
+				// (<= ~1.1e-15 rad at |lng| = pi, i.e. 6.5e-14 deg), hence 10^e*2e-13 grid units of slack;
+				// longitudes are compared along the parallel
+				thr := 1e-9 + math.Pow(10, float64(e))*2e-13
 				ll := s2.LatLngFromPoint(q)
 				fl, fg := ll.Lat.Degrees()/unit, ll.Lng.Degrees()/unit
 				off := math.Max(math.Abs(fl-math.RoundToEven(fl)), math.Abs(fg-math.RoundToEven(fg))*math.Cos(ll.Lat.Radians()))
